@@ -387,7 +387,10 @@ class CookieJar(AbstractCookieJar):
                     # Cut everything from the last slash to the end
                     path = "/" + path[1 : path.rfind("/")]
                 cookie["path"] = path
-            path = path.rstrip("/")
+            # Path=/app and Path=/app/ are two cookies (RFC 6265 5.3 step 11):
+            # the store is keyed by the exact Path, only the root is "".
+            if path == "/":
+                path = ""
 
             # The new cookie replaces the host-only-flag of an earlier one
             # with the same name and path: a Domain cookie is no longer host-only.
@@ -480,12 +483,18 @@ class CookieJar(AbstractCookieJar):
                 reversed(hostname.split(".")), _FORMAT_DOMAIN_REVERSED
             )
 
-        # Get all the path prefixes that might match a cookie (e.g. "", "/foo", "/foo/bar")
-        paths = itertools.accumulate(request_url.raw_path.split("/"), _FORMAT_PATH)
+        raw_path = request_url.raw_path
+        # Get all the path prefixes that might match a cookie, without and with
+        # the slash that follows them (e.g. "", "/", "/foo", "/foo/", "/foo/bar")
+        paths = [
+            path
+            for prefix in itertools.accumulate(raw_path.split("/"), _FORMAT_PATH)
+            for path in (prefix, prefix + "/")
+            if raw_path.startswith(path)
+        ]
         # Create every combination of (domain, path) pairs.
         pairs = itertools.product(domains, paths)
 
-        raw_path = request_url.raw_path
         # Point 2: https://www.rfc-editor.org/rfc/rfc6265.html#section-5.4
         for p in pairs:
             if p not in self._cookies:
